@@ -315,8 +315,15 @@ func (ip *IPv4) AddressTo4() error {
 	} else {
 		dst = addr
 	}
-	ip.SrcIP = src
-	ip.DstIP = dst
+	// only rewrite the fields when they were not in 4-byte form already: this
+	// runs from read-only paths (checksum verification), where an
+	// unconditional store races with other readers of the layer
+	if len(ip.SrcIP) != net.IPv4len {
+		ip.SrcIP = src
+	}
+	if len(ip.DstIP) != net.IPv4len {
+		ip.DstIP = dst
+	}
 	return nil
 }
 
